@@ -93,6 +93,7 @@ func (r *x05Rig) replay(h *x05Hist, stats map[string]int) error {
 	}()
 	for i, st := range h.Steps {
 		stats["steps"]++
+		tStep := time.Now()
 		inTable := false
 		for _, t := range h.tableBefore(i) {
 			if t == st.W {
@@ -203,19 +204,27 @@ func (r *x05Rig) replay(h *x05Hist, stats map[string]int) error {
 		default:
 			return fmt.Errorf("step %d: unknown event %q", i, st.Ev)
 		}
+		t0 := time.Now()
 		if err := r.settle(inflight); err != nil {
 			return fmt.Errorf("step %d (%s): %v", i, st.Ev, err)
 		}
+		t1 := time.Now()
 		wp, wf, ws := r.project(st.Cnt, st.Gauge)
 		gp, err := r.readProm()
 		if err != nil {
 			return err
 		}
+		t2 := time.Now()
 		gf := r.readFlat()
 		gs, err := r.readStatsd()
 		if err != nil {
 			return err
 		}
+		t3 := time.Now()
+		stats["us_event"] += int(t0.Sub(tStep) / time.Microsecond)
+		stats["us_settle"] += int(t1.Sub(t0) / time.Microsecond)
+		stats["us_prom"] += int(t2.Sub(t1) / time.Microsecond)
+		stats["us_flat_statsd"] += int(t3.Sub(t2) / time.Microsecond)
 		stats["compared"] += 3
 		for _, c := range []struct {
 			prov            string
@@ -278,7 +287,8 @@ func TestVerifX05Replay(t *testing.T) {
 		verifx.Emit(map[string]any{"kind": "rigerror", "msg": rigErr})
 		t.Fatal(rigErr) // no summary: inconclusive
 	}
-	verifx.Summary(map[string]any{"histories": stats["histories"], "steps": stats["steps"], "compared": stats["compared"], "leads": leads})
+	verifx.Summary(map[string]any{"histories": stats["histories"], "steps": stats["steps"], "compared": stats["compared"], "leads": leads,
+		"ms_event": stats["us_event"] / 1000, "ms_settle": stats["us_settle"] / 1000, "ms_prom": stats["us_prom"] / 1000, "ms_flat_statsd": stats["us_flat_statsd"] / 1000})
 }
 
 func (r *x05Rig) restoreAndFatal(t *testing.T, err error) {
@@ -302,6 +312,8 @@ func TestVerifX05Probe(t *testing.T) {
 	n, _ := metrics.TargetName("Svc.A", "h", "/p", "http://1.2.3.4:5/")
 	res["names_applied"] = n == "X05-svc_a"
 	res["names_probe"] = n
+	e, _ := metrics.TargetName("", "h", "/p", "http://1.2.3.4:5/")
+	res["clean_empty_underscore"] = strings.HasPrefix(e, "_") || e == "X05-_"
 	if n != "X05-svc_a" {
 		// the rig below needs the default template: nothing to undo.  (On a tree that applies the template,
 		// the rig's own Initialize installs the default again.)
